@@ -1,3 +1,4 @@
+\* expected violation: HttpEqualsPipe fails on the class "dynx-cast" (known finding C11)
 SPECIFICATION Spec
 CONSTANTS
     Mode = "mc"
@@ -14,5 +15,5 @@ CONSTANTS
     Debug = FALSE
     HookMode = "ok"
 VIEW View
-PROPERTIES HttpEqualsPipeKnown OneTurnPerContinuation CapsHold ExtCapHolds CapReplaces HookBalanced
+PROPERTIES HttpEqualsPipe OneTurnPerContinuation CapsHold ExtCapHolds CapReplaces HookBalanced
 CHECK_DEADLOCK FALSE
